@@ -77,6 +77,9 @@ def fill_markdown(
 
     # Only format the content part if there's frontmatter
     if frontmatter:
+        if not content.strip():
+            # Nothing but frontmatter (or an unclosed frontmatter block): no body to format.
+            return frontmatter if frontmatter.endswith("\n") else frontmatter + "\n"
         markdown_text = content
 
     if dedent_input:
